@@ -1,7 +1,7 @@
 """C04 — Every request gets exactly one outcome."""
 import re
 
-from analysis import (peel_await, Prov, Guards, fmt, fmt_short, walk, roots, short, comparison, find_calls, callee_matches,
+from analysis import (cmp_intervals, peel_await, Prov, Guards, fmt, fmt_short, walk, roots, short, comparison, find_calls, callee_matches,
                       must_pass, path_to, describe_path, normalised_cmp, const_int_of, contains_call)
 from facts import AnchorError, strip_closure
 from harness import Rule
@@ -399,19 +399,15 @@ def r3(ctx):
             continue
         s = d["retries"]
         f, tr = g.bool_edges(bi)
-        # expr = s*(retries - limit) + k  op 0 ; "exhausted" when retries - limit >= 0
-        # true edge implies exhausted?
-        def implies_exhausted(op_, s_, k_):
-            if s_ == 1:   # x + k op 0, need x >= 0
-                return (op_ == ">=" and -k_ >= 0) or (op_ == ">" and -k_ >= -1)
-            return (op_ == "<=" and k_ >= 0) or (op_ == "<" and k_ >= 1)
-        neg = {"<": ">=", "<=": ">", ">": "<=", ">=": "<", "==": "!=", "!=": "=="}[op]
-        if op in ("==", "!="):
+        # x = retries - limit ; a resend is allowed only where x <= -1, the request is failed where x >= 0
+        ivs = cmp_intervals(s, k, op)
+        if ivs is None:
             continue
-        if implies_exhausted(op, s, k):
-            done.append((bi, tr)); more.append((bi, f))
-        elif implies_exhausted(neg, s, k):
-            done.append((bi, f)); more.append((bi, tr))
+        for (lo, hi), edge, other in ((ivs[0], tr, f), (ivs[1], f, tr)):
+            if hi is not None and hi <= -1:
+                more.append((bi, edge))
+            if lo is not None and lo >= 0:
+                done.append((bi, edge))
     inserts = [bi for bi, t in b.calls() if (t.callee() or "").endswith("ActiveRequests::insert")]
     sends = [(bi, t) for bi, t in b.calls() if (t.callee() or "") == H + "send"]
     incs = [bi for bi, t in b.calls() if (t.callee() or "").endswith("RequestCall::increment_retries")]
